@@ -30,6 +30,7 @@ func Quiet(trace bool) {
 
 // Invocation is what a generated route function records about itself and about what it sees.
 type Invocation struct {
+	Phase     string            `json:"phase,omitempty"` // "", "after-nested"
 	ID        int               `json:"id"`
 	SelPath   string            `json:"sel_path"`   // Request.SelectedRoutePath()
 	SelMethod string            `json:"sel_method"` // Request.SelectedRoute().Method()
@@ -75,6 +76,7 @@ type BuildOpt struct {
 	Options    bool // install the container's OPTIONSFilter
 	Dynamic    bool
 	Switched   bool // configure the other router first, then switch to Router (configuration history)
+	Nest       bool // route functions honour X-Nest: dispatch a nested GET to that path, then look at their own request again
 }
 
 // Build constructs a fresh real container through the public API.
@@ -129,7 +131,11 @@ func Build(t rm.Table, o BuildOpt) (b *Built) {
 			ro = o.RouteOrder[si]
 		}
 		for _, ri := range ro {
-			ws.Route(RouteBuilder(ws, s.Routes[ri], lg))
+			rb := RouteBuilder(ws, s.Routes[ri], lg)
+			if o.Nest {
+				nestable(rb, s.Routes[ri].ID, lg, b)
+			}
+			ws.Route(rb)
 		}
 		b.WS[si] = ws
 		c.Add(ws)
@@ -169,6 +175,30 @@ func RouteBuilder(ws *restful.WebService, r rm.RouteDecl, lg *Log) *restful.Rout
 		io.WriteString(resp, "ok")
 	})
 	return rb
+}
+
+// nestable replaces the route function by one that, when the request carries X-Nest, dispatches a
+// nested GET for that path on the same container (single goroutine) and afterwards records once
+// more what it sees as its own selected route and parameters.
+func nestable(rb *restful.RouteBuilder, id int, lg *Log, b *Built) {
+	record := func(req *restful.Request, phase string) {
+		inv := Invocation{Phase: phase, ID: id, SelPath: req.SelectedRoutePath(), Params: h.CopyMap(req.PathParameters())}
+		if sr := req.SelectedRoute(); sr != nil {
+			inv.SelMethod, inv.SelRPath = sr.Method(), sr.Path()
+		}
+		lg.Invoked = append(lg.Invoked, inv)
+	}
+	rb.To(func(req *restful.Request, resp *restful.Response) {
+		record(req, "")
+		if target := req.Request.Header.Get("X-Nest"); target != "" {
+			inner, err := http.NewRequest("GET", "http://example.test"+target, nil)
+			if err == nil {
+				b.C.Dispatch(h.NewRec(), inner)
+			}
+			record(req, "after-nested")
+		}
+		io.WriteString(resp, "ok")
+	})
 }
 
 func identity(n int) []int {
